@@ -17,8 +17,8 @@ def _ext(flags: list[typing.Any], vals: list[typing.Any]) -> dict[str, typing.An
 
 @harness(
     "C16", "passthrough",
-    quick=[{"ct": ct, "flavour": fl} for ct in CONN_TYPES + ("h11-interim", "h2-small-window") for fl in ("sync", "async")],
-    thorough=[{"ct": ct, "flavour": fl, "uds": u} for ct in CONN_TYPES + ("h11-interim", "h2-small-window") for fl in ("sync", "async") for u in (False, True)
+    quick=[{"ct": ct, "flavour": fl} for ct in CONN_TYPES + ("h11-interim", "h2-small-window", "tunnel-ws") for fl in ("sync", "async")],
+    thorough=[{"ct": ct, "flavour": fl, "uds": u} for ct in CONN_TYPES + ("h11-interim", "h2-small-window", "tunnel-ws") for fl in ("sync", "async") for u in (False, True)
               if not (u and ct not in ("h11", "h11tls", "h2", "h2prior"))],
     example=dict(tc=1, tr=2, tw=3, tp=4, hc=True, hr=True, hw=True, hp=True, sni=True),
     require=("connect-op", "read-op", "write-op", "with-sni_hostname"),
@@ -64,6 +64,11 @@ def passthrough(tc: int, tr: int, tw: int, tp: int, hc: bool, hr: bool, hw: bool
         body = b"thirteen-byte"
         ct = "h2prior"
         P.cover("flow-control-wait")
+    elif ct == "tunnel-ws":
+        # a plain-text ws:// origin through a CONNECT tunnel: the exchange runs over the hand-over stream wrapper
+        su = Setup("tunnel", is_async, **kw)
+        su.scheme = "ws"
+        ct = "tunnel"
     else:
         su = Setup(ct, is_async, **kw)
     ext: dict[str, typing.Any] = {"timeout": t}
